@@ -20,6 +20,8 @@ def install_all(reg):
     from . import percolate_net
     percolate_net.install(reg)
     percolate_net.install_percolate(reg)
+    from . import sanitize
+    sanitize.install(reg)
     trappist.install(reg)
     trappist.install_models(reg)
     trappist.install_programs(reg)
